@@ -16,6 +16,12 @@ def run(out, tier, seed):
     C.tlc_must_pass(r, "MC_Ideal")
     out.add_tlc(r)
     out.extra["mc_ideal_states"] = r.distinct
+    # liveness half of C01 on a small configuration: under weak fairness every operation in flight terminates
+    if tier == "thorough":
+        rl = C.tlc("MC_Ideal", "MC_IdealLive.cfg", "mc", "c01-live", workers=4, timeout=1800)
+        C.tlc_must_pass(rl, "MC_Ideal liveness")
+        out.add_tlc(rl)
+        out.extra["liveness_states"] = rl.distinct
     d = C.ensure_dir(os.path.join(C.BUILD, "c01"))
     f = os.path.join(d, "trace.ndjson")
     p = C.harness(["tokens", "--mode", "roundtrip", "--out", f, "--tier", tier, "--seed", str(seed)], timeout=7200)
